@@ -13,9 +13,9 @@ Theorem C02_cycles :
          (bime : B -> bool) (bset_ime : B -> bool -> B) (bpending : B -> N) (back : B -> N -> B),
     (forall b a, btrig b a = b) -> (forall b, bcorrupt b = b) ->
   forall s b,
-    starts gen_tables B bime bpending s b -> wf s -> byte_bus B brd -> defined_at B brd s b ->
+    starts gen_tables B bime bpending s b -> wf s -> byte_bus B brd -> defined_at B brd bset_ime s b ->
     N.of_nat (snd (run_instr gen_tables B brd bwr btrig bcorrupt bime bset_ime bpending back s b)) =
-    spec_cycles (instr_at B brd s b) (rf s).
+    spec_cycles (instr_at B brd bset_ime s b) (rf s).
 Proof. exact instr_cycles. Qed.
 Print Assumptions C02_cycles.
 
